@@ -13,7 +13,8 @@ ENCODED = ['ninjabackend.ninja_quote', 'quote_func -> mesonlib.quote_arg -> shle
            'Backend.escape_extra_args', 'mesonlib.join_args/split_args (shlex.split, instrumented)',
            'Backend.as_meson_exe_cmdline / get_executable_serialisation (decision to serialise, --capture/--feed wrapping, digest-named pickle file; hashlib, pickle.dump and open are recorders)',
            'scripts/meson_exe.run + buildparser (argparse.parse_known_args from the stdlib, instrumented; run_exe is a recorder)',
-           'mesonlib.get_filenames_templates_dict / substitute_values / _substitute_values_check_errors (@TEMPLATE@ substitution)']
+           'mesonlib.get_filenames_templates_dict / substitute_values / _substitute_values_check_errors (@TEMPLATE@ substitution)',
+           'project-commands: Interpreter.run + NinjaBackend.generate (generate_custom_target, eval_custom_target_command, generate_genlist_for_target, Backend.replace_outputs / replace_extra_args / replace_paths) on generated projects (harness/proj.py)']
 EXPLANATION = ('Symbolic execution of the real manifest writer: argument strings are symbolic over ASCII 1..126 (every quote, $, #, ;, glob, backslash, newline, '
                'control character at once), rsp_threshold is a symbolic integer so both the command-line and the response-file branch are explored for every '
                'argument; the text written is decoded by reference implementations of the consumers (Ninja lexer + $-evaluation with rule/build scoping, POSIX sh word '
@@ -26,7 +27,7 @@ OUT = ('meson_exe.run_exe on the unpickled object and mtest create_subprocess_ex
 MANIFEST = dict(
     text='Bounded symbolic decision of the quoting layers: for ALL argument strings up to the stated length over ASCII 1..126, in each command position and for both the '
          'command-line and the response-file branch, what meson writes decodes back (by independent reference decoders of ninja, sh, buildargv, CommandLineToArgvW) to '
-         'exactly the given argv. Claimed for the Ninja/shell/rsp layers only; the pickled exe wrapper, template substitution and mtest are outside.',
+         'exactly the given argv. Also decided: @TEMPLATE@ substitution (substitute_values), the decision to use and the naming of the pickled exe wrapper and its non-pickled command line (real argparse), the argv meson test executes (real SingleTestRunner up to create_subprocess_exec), link-argument sources per target, and the custom_target / generator commands of whole configurations of generated projects without a compiled language (decoded from build.ninja). The pickle byte format and the unpickling side are outside.',
     note='Trusted: symx engine, z3, the four reference decoders. Bounds: one argument up to 4 (quick) / 6 (thorough) characters, two arguments up to 2/3 each. '
          'Not decided: pickle byte format, mtest, Windows host.')
 
